@@ -72,6 +72,7 @@ type driver struct {
 	t0         int64
 	sc         schedule
 	models     []model
+	last       string // the model after the latest operation (part of the state digest)
 	abis       precomp.ABIs
 	vKey       int
 	V, F, R, G sdk.AccAddress
@@ -212,6 +213,7 @@ func (d *driver) setModel(depth int, m model) {
 		d.models = append(d.models, model{})
 	}
 	d.models[depth] = m
+	d.last = fmt.Sprintf("%v|%v|%s", m.lock, m.vest, m.delegated)
 }
 
 func (d *driver) viol(res *engine.Result, path, breach, what string, p []string, detail map[string]any) {
@@ -384,11 +386,13 @@ func (d *driver) ops(w *world.World, depth int, path []string) []engine.Op {
 				if got.IsZero() {
 					return "rejected", m
 				}
-				if got.GT(maxD) {
-					d.viol(res, dl.name, "unvested-delegated", "a delegation larger than balance minus unvested succeeded", p, map[string]any{"delegated": got.String(), "max_ref": maxD.String(), "unvested_ref": unv.String()})
+				// the bonded value moved, so the message went through: it delegated exactly the amount asked
+				// (the bonded value itself is share-rounded after a slash and is not used as the amount)
+				if a.GT(maxD) {
+					d.viol(res, dl.name, "unvested-delegated", "a delegation larger than balance minus unvested succeeded", p, map[string]any{"delegated": a.String(), "bonded_value_delta": got.String(), "max_ref": maxD.String(), "unvested_ref": unv.String()})
 				}
 				nm := m
-				nm.delegated = m.delegated.Add(got)
+				nm.delegated = m.delegated.Add(a)
 				res.Nontrivial[fmt.Sprintf("%s|%s|%s|%d", d.sc.name, dl.name, cls, d.now()-d.t0)] = true
 				return "ok", nm
 			})
@@ -407,9 +411,20 @@ func (d *driver) ops(w *world.World, depth int, path []string) []engine.Op {
 		return "ok", m
 	})
 	add("block(+5s)", func(p []string, res *engine.Result, m model) (string, model) {
-		pre := d.bal()
+		// what comes back from unbonding is read from the unbonding entries that mature (the balance
+		// may also grow by a refunded governance deposit, which is not a returned delegation)
+		ubd := func() sdkmath.Int {
+			t := sdkmath.ZeroInt()
+			for _, u := range w.App.StakingKeeper.GetUnbondingDelegations(w.Ctx(), d.V, 100) {
+				for _, en := range u.Entries {
+					t = t.Add(en.Balance)
+				}
+			}
+			return t
+		}
+		pre := ubd()
 		w.VirtualNextBlock(5*time.Second, nil, nil)
-		back := d.bal().Sub(pre)
+		back := pre.Sub(ubd())
 		nm := m
 		if back.IsPositive() {
 			nm.delegated = m.delegated.Sub(back)
@@ -485,8 +500,10 @@ func Worker(shard, n int, tier string) *engine.Result {
 	for i, sc := range schedules(tier) {
 		d := newDriver(tier, sc)
 		sub := engine.NewResult(Prop)
-		e := &engine.Explorer{W: d.w, Res: sub, Stores: []string{"acc", "bank", "staking"}, Ops: d.ops, MaxDepth: depth, Shard: shard, NShards: n,
-			Deadline: deadline, NoDedup: true, Extra: func(w *world.World) string { return fmt.Sprint(w.Header.Time.Unix()) }}
+		// a state is all persistent stores + block time + the reference model: two operation sequences
+		// that agree on all of these have the same futures, so the second one is not expanded again
+		e := &engine.Explorer{W: d.w, Res: sub, Stores: engine.AllStores(d.w), Ops: d.ops, MaxDepth: depth, Shard: shard, NShards: n,
+			Deadline: deadline, Extra: func(w *world.World) string { return fmt.Sprint(w.Header.Time.Unix()) + "|" + d.last }}
 		e.Run()
 		for k, v := range sub.States {
 			res.States[fmt.Sprintf("s%d|%s", i, k)] = v
